@@ -244,7 +244,8 @@ OK_CODES = {"E0277", "E0499", "E0502", "E0505", "E0597", "E0599", "E0271", "E030
 
 def artifacts():
     """(re)build brood with the harness profile and locate the rlibs"""
-    r = subprocess.run(["cargo", "build", "--release", "--offline", "-p", "mccore", "--message-format=json"], cwd=MC, stdout=subprocess.PIPE, stderr=subprocess.PIPE, text=True)
+    r = subprocess.run(["cargo", "build", "--release", "--offline", "-p", "mccore", "--message-format=json"], cwd=MC, stdout=subprocess.PIPE, stderr=subprocess.PIPE, text=True,
+                       env=dict(os.environ, CARGO_TARGET_DIR=TARGET, CARGO_NET_OFFLINE="true"))
     if r.returncode != 0:
         print(r.stderr[-4000:])
         print("MACHINERY-ERROR build failed")
@@ -260,6 +261,36 @@ def artifacts():
                 if f.endswith(".rlib"):
                     ext[j["target"]["name"]] = f
     return ext
+
+
+WITNESS = PRELUDE + """
+pub fn main() {
+    // run-time witness for the entries-requery family: two simultaneously usable references to one component
+    let mut world = World::<Reg>::new();
+    let id = world.insert(entity!(A(1), B(2)));
+    let mut res = world.query(Query::<Views!(), filter::None, Views!(), Views!(&mut A)>::new());
+    let mut e = res.entries.entry(id).unwrap();
+    let result!(x) = e.query(Query::<Views!(&mut A)>::new()).unwrap();
+    let result!(y) = e.query(Query::<Views!(&mut A)>::new()).unwrap();
+    let (px, py) = (x as *mut A as usize, y as *mut A as usize);
+    x.0 += 10;
+    y.0 += 100;
+    println!("WITNESS two live &mut A: {:#x} and {:#x} (same address: {}), value now {}", px, py, px == py, x.0);
+}
+"""
+
+
+def run_witness(ext):
+    src = os.path.join(WORK, "witness.rs")
+    exe = os.path.join(WORK, "witness")
+    open(src, "w").write(WITNESS)
+    cmd = ["rustc", "--edition", "2021", "--crate-type", "bin", "--cfg", "brood_verif", "-o", exe, "--extern", "brood=" + ext["brood"], "--extern", "rayon=" + ext["rayon"],
+           "-L", "dependency=" + os.path.join(TARGET, "release", "deps"), src]
+    r = subprocess.run(cmd, stdout=subprocess.PIPE, stderr=subprocess.PIPE, text=True)
+    if r.returncode != 0:
+        return "witness program does not compile (the defect may be repaired): " + " ".join(sorted(set(re.findall(r"error\[(E\d+)\]", r.stderr))))
+    r = subprocess.run([exe], stdout=subprocess.PIPE, stderr=subprocess.STDOUT, text=True)
+    return r.stdout.strip()
 
 
 def compile_one(p, ext):
@@ -331,13 +362,16 @@ def main():
         json.dump({"engine": "progs", "property": want, "program": p["name"], "family": p["family"], "why": p["why"], "key": key, "source": PRELUDE + p["body"]}, open(path, "w"), indent=1)
         print("FOUND property=%s key=%s replay=%s :: %s: %s" % (want, key.replace(" ", "_"), path, p["family"], p["why"]))
         out.append(key)
+    witness = run_witness(ext) if want == "C14" and any(p["family"].startswith("F5b") for p, _ in found) else None
+    if witness:
+        print("note: " + witness)
     mine = [p for p in PROGS if prop_of(p) == want]
     ev = {"property_id": want, "tier": os.environ.get("PROGS_TIER", "quick"), "seed": int(os.environ.get("VERIF_SEED", "0") or 0), "level": "exploration",
           "coverage": {"evaluations": len(mine), "distinct_nontrivial": sum(1 for p in mine if p["expect"] == "reject"),
                        "rule": "one case = one generated program, type- and borrow-checked by rustc against the current brood rlib; families are full products (view-kind pairs x positions x contexts; thread-crossing APIs x payloads); non-trivial = programs the reference model says must be rejected (each paired with a conflict-free twin that must compile)",
                        "samples": [{"program": p["name"], "family": p["family"], "expect": p["expect"], "text": p["body"][:400]} for p in mine[:: max(1, len(mine) // 5)]][:6],
                        "programs": len(mine), "families": fam if want == "C14" else {}, "verdicts": stats if want == "C14" else {},
-                       "rejecting_error_codes": codes_seen if want == "C14" else {}, "exhaustive": True, "found": out},
+                       "rejecting_error_codes": codes_seen if want == "C14" else {}, "exhaustive": True, "found": out, "runtime_witness_for_entries_requery": witness},
           "assumptions": ["rustc's type and borrow checker is the transition function and is trusted", "says nothing about programs outside the generated families", "both-immutable duplicate views are don't-care (brood may reject them)"],
           "wall_s": round(time.time() - t0, 2), "violations": len(out)}
     json.dump(ev, open(ev_path, "w"), indent=1)
